@@ -778,7 +778,9 @@ class MaterialIndexer(Indexer):
             self.empty()
             other_data = other.data
             phase = other.phase
-            if phase not in phase_indexer: self._expand_phases(phase)
+            if phase not in phase_indexer: 
+                self._expand_phases(phase)
+                phase_indexer = self._phase_indexer
             phase_index = phase_indexer(phase)
             if self.chemicals is other.chemicals:
                 self.data.rows[phase_index].copy_like(other_data)
@@ -797,7 +799,10 @@ class MaterialIndexer(Indexer):
                     for i, j in other: data[phase_indexer(i)] = j
                 else:
                     self._expand_phases(other._phases)
-                    self.data.copy_like(other.data)
+                    phase_indexer = self._phase_indexer
+                    self.empty()
+                    data = self.data
+                    for i, j in other: data[phase_indexer(i)] = j
             else:
                 self.empty()
                 other_data = other.data
@@ -805,11 +810,11 @@ class MaterialIndexer(Indexer):
                 left_index, right_index = index_overlap(self._chemicals, other._chemicals, [*other_data.nonzero_keys()])
                 if phase_indexer is other_phase_indexer:
                     data[:, left_index] = other_data[:, right_index]
-                elif phase_indexer.compatible_with(other_phase_indexer):
-                    for i, j in other: data[phase_indexer(i)] += j
                 else:
-                    self._expand_phases(other._phases)
-                    data[:, left_index] = other_data[:, right_index]
+                    if not phase_indexer.compatible_with(other_phase_indexer):
+                        self._expand_phases(other._phases)
+                        phase_indexer = self._phase_indexer
+                    for i, j in other: data[phase_indexer(i), left_index] = j[right_index]
                     
     
     def _expand_phases(self, other_phases=None):
